@@ -1489,7 +1489,12 @@ func (v *VMValue) ComputedExecute(ctx *Context, detail *BufferSpan) *VMValue {
 	}
 
 	if cd.code == nil {
-		_ = vm.Run(cd.Expr)
+		// Parse 会把算力计数清零；这里要保留调用链上已经累计的算力，否则递归永远不会触发上限
+		usedOps := vm.NumOpCount
+		if err := vm.Parse(cd.Expr); err == nil {
+			vm.NumOpCount = usedOps
+			_ = vm.RunAfterParsed()
+		}
 		cd.code = vm.code
 		cd.codeIndex = vm.codeIndex
 	} else {
@@ -1573,7 +1578,12 @@ func (v *VMValue) FuncInvokeRaw(ctx *Context, params []*VMValue, useUpCtxLocal b
 	}
 
 	if cd.code == nil {
-		_ = vm.Run(cd.Expr)
+		// Parse 会把算力计数清零；这里要保留调用链上已经累计的算力，否则递归永远不会触发上限
+		usedOps := vm.NumOpCount
+		if err := vm.Parse(cd.Expr); err == nil {
+			vm.NumOpCount = usedOps
+			_ = vm.RunAfterParsed()
+		}
 		cd.code = vm.code
 		cd.codeIndex = vm.codeIndex
 	} else {
